@@ -8,6 +8,9 @@ CHECKS = {
  "C01": ("translation_validation", "property-based testing: Hypothesis-generated design programs, each validated against a reference interpreter (differential oracle, isomorphism of flat circuits)",
          "Each generated design program is built and exported by Hdl21 in a pristine process and its package, read with the netlisters' bit order, is compared up to isomorphism with an independent reference interpreter's flat circuit (devices, net partition over terminal and port bits, no-connect isolation).",
          "Trusts the reference interpreter (vlib/model.py), vlsir/protobuf and the vlsirtools bit-order convention; sampled program space with measured feature histogram; rejections are counted, not failures."),
+ "C02": ("fault_enumeration", "property-based fault injection: for Hypothesis-generated valid designs the complete list of single-fault mutants (each validated as ill-formed by the reference interpreter) is planted; oracle = elaborate/to_proto/netlist must raise",
+         "Every fault class of the statement is planted at every site of every generated base design (top or deep; scalar, bus, slice, concat, port-reference, bundle, anonymous-bundle, array, pair connections); each mutant runs in a pristine process and elaborate, to_proto, netlist and two retries must never return.",
+         "Ill-formedness is decided by the reference interpreter's typing rules; out-of-range slice *bounds* are not planted (C03 permits Python clamping); base designs are sampled, mutants per base enumerated (capped at 160, cap hits counted)."),
  "C03": ("exploration", "exhaustive enumeration of a bounded index box plus Hypothesis-generated nested parents; oracle = Python list indexing",
          "Every index of the bounded box on a Signal parent (complete) and sampled indices on nested slice/concat/port-reference/bundle-reference parents are built, width-queried, connected, elaborated and exported; acceptance, reported width and the exported bit sequence are compared with Python's own list indexing.",
          "Trusts Python list slicing and the package reader; nested parents sampled; acceptance is only required where the statement requires it."),
